@@ -12,7 +12,6 @@ from typing import (
     List,
     Optional,
     Sequence,
-    Set,
     Tuple,
 )
 
@@ -424,6 +423,11 @@ class AhocorasickTokenizer(Tokenizer):
 
     def __post_init__(self):
         """Set up helpers to narrow down possible extractors."""
+        # Position of each extractor in self.extractors, so that filtered
+        # extractors can be returned in a stable order
+        self.extractor_positions = {
+            id(e): i for i, e in enumerate(self.extractors)
+        }
         # Build a set of all extractors that don't list required strings
         self.unfiltered_extractors = set(
             e for e in self.extractors if not e.strings
@@ -443,9 +447,12 @@ class AhocorasickTokenizer(Tokenizer):
             for s in e.strings
         )
 
-    def get_extractors(self, text: str) -> Set[TokenExtractor]:
+    def get_extractors(self, text: str) -> List[TokenExtractor]:
         """Override get_extractors() to filter out extractors
-        that can't possibly match."""
+        that can't possibly match. Extractors are returned in the order of
+        self.extractors: when two extractors match the same characters the
+        tokenizer keeps the first, so the order must not depend on set
+        iteration (i.e. on the process's hash seed)."""
         unique_extractors = set(self.unfiltered_extractors)
         for _, extractors in self.case_sensitive_filter.iter(text):
             unique_extractors.update(extractors)
@@ -453,7 +460,10 @@ class AhocorasickTokenizer(Tokenizer):
             text.translate(NON_ASCII_CASE_VARIANTS).lower()
         ):
             unique_extractors.update(extractors)
-        return unique_extractors
+        return sorted(
+            unique_extractors,
+            key=lambda e: self.extractor_positions[id(e)],
+        )
 
     @staticmethod
     def make_ahocorasick_filter(
